@@ -52,13 +52,13 @@ type c05Node struct {
 }
 
 type c05Obs struct {
-	BuildErr string    `json:"build_err,omitempty"`
-	BuildPanic string  `json:"build_panic,omitempty"`
-	BC       []uint32  `json:"bc,omitempty"`
-	Nodes    []c05Node `json:"nodes,omitempty"`
-	Ans      []c05Ans  `json:"ans,omitempty"`
-	Ans2     []c05Ans  `json:"ans2,omitempty"`
-	Go       int       `json:"go,omitempty"`
+	BuildErr   string    `json:"build_err,omitempty"`
+	BuildPanic string    `json:"build_panic,omitempty"`
+	BC         []uint32  `json:"bc,omitempty"`
+	Nodes      []c05Node `json:"nodes,omitempty"`
+	Ans        []c05Ans  `json:"ans,omitempty"`
+	Ans2       []c05Ans  `json:"ans2,omitempty"`
+	Go         int       `json:"go,omitempty"`
 }
 
 type c05 struct{}
@@ -611,12 +611,12 @@ func c05Size(r *rand.Rand, tier string) int {
 }
 
 var c05Adversarial = [][]string{
-	{"/a/:x#y", "/b"},                // termination byte inside a parameterised key
-	{"/a#b/:x"},                      // termination byte in a literal part
-	{"/a/\x00b/:x", "/a/:y"},         // NUL in a parameterised key
-	{"/a/*w", "/a/*v"},               // two wildcard keys of one shape
-	{"/a/:x/b", "/a/:y/b"},           // two parameter keys of one shape
-	{"/a/:x/:x"},                     // duplicate names: Build reports an error
+	{"/a/:x#y", "/b"},               // termination byte inside a parameterised key
+	{"/a#b/:x"},                     // termination byte in a literal part
+	{"/a/\x00b/:x", "/a/:y"},        // NUL in a parameterised key
+	{"/a/*w", "/a/*v"},              // two wildcard keys of one shape
+	{"/a/:x/b", "/a/:y/b"},          // two parameter keys of one shape
+	{"/a/:x/:x"},                    // duplicate names: Build reports an error
 	{"/:x/*w", "/:y/*w", "/a/:y/b"}, // shapes collide after the names are stripped
 }
 
